@@ -1,4 +1,5 @@
 import ChessVerif.Props.C06
+import ChessVerif.Props.C06.Sound
 open Chess.Props.C06
 #print axioms parse_total
 #print axioms parse_validated
@@ -8,3 +9,6 @@ open Chess.Props.C06
 #print axioms parse_castle_lt
 #print axioms parse_clocks
 #print axioms parse_WF
+#print axioms Chess.Props.C06.validate_iff_valid
+#print axioms Chess.Props.C06.wf_valid
+#print axioms Chess.Props.C06.parse_valid
